@@ -26,13 +26,13 @@ CLAIMED = {
          "Returned profile bytes are proved equal, byte for byte as bit-vector terms, to the specification-side assembly (ICC.1 Annex B order for JPEG with all chunk orders and damage classes as models of one harness; WebP ICCP payload incl. sizes around 4096; the exact compressed bytes handed to inflate for PNG), damaged sets give (nil,error) with metadata, absence gives (nil,nil).",
          "Trusted: executor, z3; inflate is a stub (what goes in and that its output is returned untouched is what is proved). Bounds: <=3 (thorough 4) JPEG chunks, listed sizes.", "DESIGN.md 5 C06"),
  "C07": ("model_checking", "bounded symbolic execution of the four Load functions with a symbolic-content, scheduled, fault-injecting source (go/ssa -> SMT-LIB2, z3)",
-         "On every feasible path over N arbitrary symbolic bytes (every truncation, every fault position, three delivery schedules) and over every truncation of skeleton files, the drained stream equals the delivered source bytes and surfaces the injected error; bounded by N (PNG 28, JPEG 14, WebP 40, auto 12 in quick).",
+         "On every feasible path over N arbitrary symbolic bytes (every truncation, every fault position, three delivery schedules) and over every truncation of skeleton files, the drained stream equals the delivered source bytes and surfaces the injected error; bounded by N (PNG 28, JPEG 14, WebP 40, auto 12 in quick); plus, through autometa, inputs longer than every internal buffer (signature + 4090..9000 bytes of ancillary data per format, whole and cut at 4097).",
          "Trusted: executor (cross-validated natively on sampled paths), z3; zlib replaced by a nondeterministic stub (inflate not modelled); path feasibility is the solver's, byte equality is term identity.", "DESIGN.md 5 C07"),
  "C08": ("model_checking", "two-run (2-safety) bounded symbolic execution: full delivery vs. chunked delivery of the same symbolic content",
-         "Metadata, ICC bytes/error-ness and success outcome are proved identical between a fully delivering reader and readers delivering 1,2,3,7-byte chunks (with and without data+EOF), for skeleton files with symbolic fields, small arbitrary inputs, and the ICC reader behind bufio.",
-         "Trusted: executor, z3, deterministic zlib stub. Schedules are the enumerated fixed chunk sizes, not all compositions; sizes around 4096 are outside the bound.", "DESIGN.md 5 C08"),
+         "Metadata, ICC bytes/error-ness and success outcome are proved identical between a fully delivering reader and readers delivering 1,2,3,7-byte chunks (with and without data+EOF), for skeleton files with symbolic fields, small arbitrary inputs, and the ICC reader behind bufio on a 9000-byte profile (chunks 1,2,3,7,100, everything at once, 8192; data+EOF delivery, so bufio's direct-read path is taken).",
+         "Trusted: executor, z3, deterministic zlib stub. Schedules are the enumerated fixed chunk sizes, not all compositions.", "DESIGN.md 5 C08"),
  "C09": ("model_checking", "bounded symbolic execution with engine-level panic / allocation-budget / instruction-budget obligations; symbolic allocation sizes decided by satisfiability queries",
-         "For N arbitrary symbolic bytes per loader and for structured inputs whose every length, count, offset and size field is an unconstrained symbolic word, no path lets a panic escape, exceeds 16N+128KiB allocated bytes, or exceeds 4000N+200000 SSA instructions; an over-budget allocation is found as the model of a single query (all 2^32 values of a length field at once).",
+         "For N arbitrary symbolic bytes per loader and for structured inputs whose every length, count, offset and size field is an unconstrained symbolic word, no path lets a panic escape, exceeds 16N+128KiB allocated bytes, or exceeds 4000N+200000 SSA instructions; an over-budget allocation is found as the model of a single query (all 2^32 values of a length field at once). The mluc/textDescription decoders are explored in six shapes, one run each (300 s wall budget per shape).",
          "Trusted: executor's allocation accounting (sizes from go/types for gc/amd64, append growth approximated), z3, zlib stub (its output excluded). SSA instruction count is the proxy for time.", "DESIGN.md 5 C09"),
  "C17": ("model_checking", "bounded symbolic execution of ProfileReader.ReadProfile / Profile.Description over all tag placements and mluc string placements with symbolic content",
          "Every tag entry equals in[offset:offset+size] for every placement of k<=2 tags in an 8-byte data area (k=0 included); the description equals the ASCII bytes of a textDescription, or the UTF-16BE decoding at an 'en' record's declared offset (else some record's) for every placement of <=2 records' strings.",
@@ -41,14 +41,14 @@ CLAIMED = {
          "For skeleton files of every family followed by up to 70000 (thorough 300000) bytes of pixel data the number of bytes the loader pulled from the source is <= needed+64KiB on every path, and the file truncated at `needed` loads to identical metadata.",
          "Trusted: executor, z3; `needed` is computed in the harness from the container layout. 64 MiB payloads are outside the bound; the argument is that the count of requested bytes does not depend on what follows.", "DESIGN.md 5 C18"),
  "C19": ("model_checking", "differential bounded symbolic execution: three specific loaders and autometa.Load on the same symbolic input in one path",
-         "auto's metadata/ICC/err-ness equals the first succeeding specific loader's, error without metadata when none succeeds, stream replays the input; over 12 arbitrary bytes, all skeleton families at every truncation, and 9 polyglots.",
+         "auto's metadata/ICC/err-ness equals the first succeeding specific loader's, error without metadata when none succeeds, stream replays the input; over 12 arbitrary bytes, all skeleton families at every truncation, 9 polyglots, and a family of inputs longer than every internal buffer (4090..9000, thorough 70000, ancillary bytes per format).",
          "Trusted: executor, z3, deterministic zlib stub. The oracle is the specific loaders themselves (differential), as the property states.", "DESIGN.md 5 C19"),
  "C10": ("model_checking", "bounded symbolic execution of linear.TransformImageColor with all pixel bytes symbolic and a symbolically keyed per-colour function, compared byte-for-byte with a reference built by the standard library's Set; uninterpreted per-colour functions for the wiring of the 8 public transforms",
          "For each explored (source type, destination type, geometry, destination origin, parallelism) configuration and all pixel contents and keys at once, the destination parent's storage equals the reference (per-pixel function at dst.Min+(p-src.Min), everything else untouched); in-place use equals the function of the original pixels; each public image transform is TransformImageColor with its own package's per-colour function.",
          "Trusted: executor (merging/if-conversion cross-validated natively), z3, image/color and image Set/At as the definition of colour-model conversion; workers run sequentially (C11 covers their independence). f ranges over an XOR-keyed family (symbolic keys), not all functions.", "DESIGN.md 5 C10"),
  "C11": ("other", "happens-before encoding (SMT over integer timestamps, sequentially consistent interleavings) built from the symbolic executor's access logs of the real code; models replayed under the Go race detector",
-         "For every lazily initialised function and for the worker goroutines of TransformImageColor, no scenario of 2-3 concurrent callers (first caller, a caller finding the Once taken, a later caller) admits a sequentially consistent execution with two conflicting plain accesses unordered by happens-before. Not a sampling of schedules: the interleaving is a solver variable.",
-         "Trusted: executor's access log (cell identity, at most 6 events per instruction), the Go memory model's contracts for sync.Once/WaitGroup/go as stated; caller control flow restricted to the observed variants; loaders/helpers only through the worker scenario. Level 'other': a model of the memory model, not of the runtime.", "DESIGN.md 5 C11"),
+         "For 19 entry points (the lazily initialised 16-bit table functions, chromatic adaptation, Lab, the XYZ/8-bit conversions and constructors of all four spaces, the four metadata loaders) and for the worker goroutines of TransformImageColor, no scenario of 2-3 concurrent callers (first caller, a caller finding the Once taken, a later caller) admits a sequentially consistent execution with two conflicting plain accesses unordered by happens-before. Not a sampling of schedules: the interleaving is a solver variable.",
+         "Trusted: executor's access log (cell identity, at most 6 events per instruction), the Go memory model's contracts for sync.Once/WaitGroup/go as stated; caller control flow restricted to the observed variants (one concrete input per entry point). Level 'other': a model of the memory model, not of the runtime.", "DESIGN.md 5 C11"),
  "C12": ("model_checking", "symbolic execution in exact real arithmetic with rational-function tracking; polynomial (in)equalities decided by z3/cvc5 (NRA)",
          "For all valid white-point pairs: A->B maps white A to white B within 1e-6, equals the Bradford-method matrix built independently from the published constants within 1e-6 per entry, A->A is the identity, xyY and XYZ constructors coincide, Apply is the matrix-vector product. Round trip A->B->A is in the thorough tier; three-point composition is attempted there and reported as a reduced bound if undecided.",
          "Trusted: executor, solvers; float rounding not modelled (exact reals over the float64-rounded constants the code uses): rounding budget assumption.", "DESIGN.md 5 C12"),
